@@ -13,10 +13,10 @@ pub proof fn lemma_all_filled(ring: RingR, bufs: Seq<Vec<u8>>, plan: Seq<ReadPla
         subs_match(ring.subs@, plan, exp), bufs.len() == plan.len(), exp.len() == plan.len(), ring.cqes@.len() == plan.len(),
         forall|j: int| 0 <= j < ring.cqes@.len() ==> (#[trigger] ring.cqes@[j]).0 < plan.len() ==> ring.cqes@[j].1 >= 0 && ring.cqes@[j].1 as int == exp[ring.cqes@[j].0 as int],
         completions_ok(ring.subs@, ring.cqes@, bufs),
-    ensures forall|k: int| 0 <= k < plan.len() ==> (#[trigger] bufs[k])@ == want_bytes(plan[k]),
+    ensures forall|k: int| 0 <= k < plan.len() ==> (#[trigger] bufs[k])@ == want_bytes(plan[k]) && plan[k].blk.offset + plan[k].end <= disk(plan[k].blk.mmap.file).len(),
 {
     reveal(subs_match); reveal(completions_ok);
-    assert forall|k: int| 0 <= k < plan.len() implies (#[trigger] bufs[k])@ == want_bytes(plan[k]) by {
+    assert forall|k: int| 0 <= k < plan.len() implies (#[trigger] bufs[k])@ == want_bytes(plan[k]) && plan[k].blk.offset + plan[k].end <= disk(plan[k].blk.mmap.file).len() by {
         let j = choose|j: int| 0 <= j < ring.cqes@.len() && (#[trigger] ring.cqes@[j]).0 == (#[trigger] ring.subs@[k]).ud;
         assert(ring.cqes@[j].0 == k);
         let i = choose|i: int| 0 <= i < ring.subs@.len() && (#[trigger] ring.cqes@[j]).0 == (#[trigger] ring.subs@[i]).ud
